@@ -96,9 +96,27 @@ fn bp_args(path: &str, lines: &[(i64, Option<String>)]) -> SetBreakpointsArgumen
 
 /// Evaluate `src` with the given evaluator set-up; returns the outcome JSON.
 fn eval_with<F: FnOnce(&mut Evaluator)>(src: &str, gc_always: bool, setup: F) -> J {
+    eval_with_libs(src, &[], gc_always, setup)
+}
+
+/// Libraries are evaluated plainly (no instrumentation) and frozen; the program loads them.
+fn eval_with_libs<F: FnOnce(&mut Evaluator)>(src: &str, libs: &[(String, String)], gc_always: bool, setup: F) -> J {
     let store = Store::default();
     let globals = globals_of("ext");
-    let loader = Loader { modules: HashMap::new() };
+    let mut loader = Loader { modules: HashMap::new() };
+    for (name, lsrc) in libs {
+        let fm = Module::with_temp_heap(|m| {
+            {
+                let mut eval = Evaluator::new(&m);
+                eval.set_loader(&loader);
+                eval.extra = Some(&store);
+                let ast = AstModule::parse(name, lsrc.clone(), &Dialect::AllOptionsInternal).expect("lib parses");
+                eval.eval_module(ast, &globals).expect("lib evaluates");
+            }
+            m.freeze().expect("lib freezes")
+        });
+        loader.modules.insert(name.clone(), fm);
+    }
     if gc_always {
         starlark::verif::set_gc_schedule(vec![], true);
     }
@@ -131,7 +149,14 @@ fn one(spec: &J) -> J {
     let kind = cfg["kind"].as_str().unwrap();
     let gc = cfg.get("gc").and_then(|x| x.as_bool()) == Some(true);
     match kind {
-        "plain" => eval_with(&src, gc, |_| {}),
+        "plain" => {
+            let libs: Vec<(String, String)> = cfg
+                .get("libs")
+                .and_then(|l| l.as_array())
+                .map(|a| a.iter().map(|x| (x[0].as_str().unwrap().to_owned(), x[1].as_str().unwrap().to_owned())).collect())
+                .unwrap_or_default();
+            eval_with_libs(&src, &libs, gc, |_| {})
+        }
         "profile" => {
             let mode = profile_mode_of(cfg["mode"].as_str().unwrap()).expect("mode");
             let mut o = eval_with(&src, gc, |eval| {
@@ -169,18 +194,48 @@ fn one(spec: &J) -> J {
                         .collect()
                 })
                 .unwrap_or_default();
-            let ast = match AstModule::parse("prog.star", src.clone(), &Dialect::AllOptionsInternal) {
-                Ok(a) => a,
-                Err(e) => return json!({"parse_error": e.to_string()}),
+            let libs: Vec<(String, String)> = cfg
+                .get("libs")
+                .and_then(|l| l.as_array())
+                .map(|a| a.iter().map(|x| (x[0].as_str().unwrap().to_owned(), x[1].as_str().unwrap().to_owned())).collect())
+                .unwrap_or_default();
+            let mut verified: Vec<bool> = Vec::new();
+            // the client's setBreakpoints requests, in order: by default one for prog.star; "bp_calls" gives an explicit
+            // sequence [[file, [lines...]], ...] (a file may appear several times, an empty list clears that file)
+            let calls: Vec<(String, Vec<(i64, Option<String>)>)> = match cfg.get("bp_calls").and_then(|c| c.as_array()) {
+                Some(a) => a
+                    .iter()
+                    .map(|c| {
+                        (
+                            c[0].as_str().unwrap().to_owned(),
+                            c[1].as_array().unwrap().iter().map(|l| (l.as_i64().unwrap(), None)).collect(),
+                        )
+                    })
+                    .collect(),
+                None => vec![("prog.star".to_owned(), bps.clone())],
             };
-            let resolved = match resolve_breakpoints(&bp_args("prog.star", &bps), &ast) {
-                Ok(r) => r,
-                Err(e) => return json!({"resolve_error": e.to_string()}),
-            };
-            let resp = resolved.to_response();
-            let verified: Vec<bool> = resp.breakpoints.iter().map(|b| b.verified).collect();
-            if let Err(e) = adapter.set_breakpoints("prog.star", &resolved) {
-                return json!({"set_breakpoints_error": e.to_string()});
+            for (file, lines) in &calls {
+                let fsrc = if file == "prog.star" {
+                    src.clone()
+                } else {
+                    match libs.iter().find(|l| &l.0 == file) {
+                        Some(l) => l.1.clone(),
+                        None => return json!({"bad_config": format!("no source for {file}")}),
+                    }
+                };
+                let ast = match AstModule::parse(file, fsrc, &Dialect::AllOptionsInternal) {
+                    Ok(a) => a,
+                    Err(e) => return json!({"parse_error": e.to_string()}),
+                };
+                let resolved = match resolve_breakpoints(&bp_args(file, lines), &ast) {
+                    Ok(r) => r,
+                    Err(e) => return json!({"resolve_error": e.to_string()}),
+                };
+                let resp = resolved.to_response();
+                verified.extend(resp.breakpoints.iter().map(|b| b.verified));
+                if let Err(e) = adapter.set_breakpoints(file, &resolved) {
+                    return json!({"set_breakpoints_error": e.to_string()});
+                }
             }
             let mode = cfg["mode"].as_str().unwrap_or("continue").to_owned();
             let first_step = mode != "continue";
@@ -188,7 +243,7 @@ fn one(spec: &J) -> J {
             let th = std::thread::Builder::new()
                 .stack_size(8 << 20)
                 .spawn(move || {
-                    let o = eval_with(&src2, gc, move |eval| {
+                    let o = eval_with_libs(&src2, &libs, gc, move |eval| {
                         hook.add_dap_hooks(eval);
                     });
                     let _ = tx.send(Msg::Done(o));
@@ -206,7 +261,9 @@ fn one(spec: &J) -> J {
             loop {
                 match rx.recv_timeout(Duration::from_secs(10)) {
                     Ok(Msg::Stopped) => {
-                        let line = adapter.top_frame().ok().flatten().map(|f| f.line).unwrap_or(-1);
+                        let tf = adapter.top_frame().ok().flatten();
+                        let file = tf.as_ref().and_then(|f| f.source.as_ref()).and_then(|s| s.path.clone()).unwrap_or_default();
+                        let line = tf.map(|f| f.line).unwrap_or(-1);
                         let vars: Vec<(String, String)> = adapter
                             .variables(0)
                             .map(|v| v.locals.into_iter().map(|x| (x.name.to_string(), x.value)).collect())
@@ -222,7 +279,7 @@ fn one(spec: &J) -> J {
                                 Err(_) => J::Null,
                             })
                             .collect();
-                        stops.push(json!({"line": line, "vars": vars, "depth": depth, "eval": ev}));
+                        stops.push(json!({"file": file, "line": line, "vars": vars, "depth": depth, "eval": ev}));
                         if stops.len() > 5000 {
                             hang = true;
                             break;
